@@ -22,7 +22,7 @@
 (* those are INVARIANTS, evaluated by TLC on every state of the trace, for *)
 (* the published report (rep) and for what readers saw (view).             *)
 (***************************************************************************)
-EXTENDS Naturals, Sequences, FiniteSets, Json, TLC, TLCExt
+EXTENDS Integers, Sequences, FiniteSets, Json, TLC, TLCExt
 
 MaxVal == 255
 
@@ -32,9 +32,10 @@ IncrIdx == TLCEval({i \in 1..Len(TraceLog) : TraceLog[i].ev = "incr"})
 TraceKeys == TLCEval({TraceLog[i].k : i \in IncrIdx})
 TraceCtrs == TLCEval({TraceLog[i].c : i \in IncrIdx})
 
-VARIABLES l, cap, minute, rep, prevrep, hits, accessed, view
+VARIABLES l, cap, minute, rep, prevrep, hits, accessed, view,
+          hid, seq   \* history in progress and number of its events seen so far (the log is complete)
 
-tvars == <<l, cap, minute, rep, prevrep, hits, accessed, view>>
+tvars == <<l, cap, minute, rep, prevrep, hits, accessed, view, hid, seq>>
 
 ZeroHits == [c \in TraceCtrs |-> [k \in TraceKeys |-> 0]]
 
@@ -55,6 +56,7 @@ SumHits(cs, k) == IF cs = {} THEN 0
 TraceInit ==
   /\ l = 1 /\ cap = 0 /\ minute = 0 /\ rep = <<>> /\ prevrep = <<>>
   /\ hits = ZeroHits /\ accessed = {} /\ view = <<>>
+  /\ hid = -1 /\ seq = 0
 
 Reset(e) ==
   /\ cap' = e.cap /\ minute' = e.m /\ rep' = <<>> /\ prevrep' = <<>>
@@ -155,6 +157,10 @@ TraceNext ==
        \/ e.ev = "evict" /\ Evict(e)
        \/ e.ev = "read" /\ Read(e)
        \/ e.ev = "pread" /\ PRead(e)
+  \* every event carries its history and its position in it: no event of the log is missing or repeated
+  /\ LET e == TraceLog[l] IN
+       IF e.ev = "reset" THEN e.h > hid /\ e.s = 0 /\ hid' = e.h /\ seq' = 0
+       ELSE e.h = hid /\ e.s = seq + 1 /\ seq' = e.s /\ hid' = hid
   /\ l' = l + 1
 
 TraceSpec == TraceInit /\ [][TraceNext]_tvars
